@@ -4,6 +4,11 @@ import json, os, subprocess
 V = os.path.dirname(os.path.abspath(__file__))
 
 CHECKS = {
+ 'C10': dict(cat='model_checking', tech='explicit-state search (BFS) over (position, raw bytes of the real state blob) with every admissible fragment length, Get/Verify and relocation as transitions',
+             text='For each Start/Step/Get bundle the reachable set of (position, state bytes) nodes is closed under Step(f) for every admissible fragment length, Get/Get2/Verify (continuing from the state after Get '
+                  'where the header allows it) with every transition executed on a relocated copy of the state while the vacated locations stay poisoned; since the code is a deterministic function of (state bytes, '
+                  'fragment) this covers every partition of the message into any number of fragments with Get/Verify and moves interleaved anywhere; invariant: equality with the one-shot function.',
+             note='trusted: gcc -O2 build; one-shot functions tied to the standards by C01/C03; bash states restored in place (relocation not documented for bash)', ref='4/C10'),
  'C07': dict(cat='model_checking', tech='exhaustive replay of the bounded shape corpora on sanitizer-instrumented real code with exact-size allocations; two-fill non-interference',
              text='The complete corpora of the functional properties (every length / level / alphabet / count in the stated bounds) are executed on the real code built with AddressSanitizer + bounds, '
                   'ASSERT active and exact-size blobs (page size 1), each caller buffer / state / stack in its own allocation of exactly the documented size, in the 64-bit and 32-bit word configurations; '
